@@ -351,8 +351,14 @@ def native_check(name, rows, skip_known=True):
     return bad
 
 
+def _ulp_jitter(rng, x):
+    """x, or one of its floating-point neighbours (the property includes points on surfaces; masks must agree also one ulp off)"""
+    k = rng.integers(-1, 2, size=np.shape(x))
+    return np.where(k < 0, np.nextafter(x, -np.inf), np.where(k > 0, np.nextafter(x, np.inf), x))
+
+
 def gen_rows(name, rng, n):
-    """random + special rows (faces / edges / interior / exterior) for a wrapper"""
+    """random + special rows (faces / edges / interior / exterior, exactly and one ulp off) for a wrapper"""
     sp = WRAPPERS[name]
     rows = {}
     for k, sh in sp.args.items():
@@ -361,16 +367,27 @@ def gen_rows(name, rng, n):
         rows["dimension"] = np.abs(rows["dimension"]) + 0.1
         d = rows["dimension"] / 2
         sel = rng.integers(0, 4, size=(n, 3))
-        rows["observers"] = np.where(sel == 0, d, np.where(sel == 1, -d, rows["observers"] * d))
+        rows["dimension"][: n // 4] = np.round(rows["dimension"][: n // 4] * 4) / 4 + 0.25  # "nice" sizes (3, 3.5, ...)
+        d = rows["dimension"] / 2
+        rows["observers"] = np.where(sel == 0, _ulp_jitter(rng, d), np.where(sel == 1, -_ulp_jitter(rng, d), rows["observers"] * d))
     elif name == "Cylinder":
         rows["dimension"] = np.abs(rows["dimension"]) + 0.1
         r0, z0 = rows["dimension"][:, 0] / 2, rows["dimension"][:, 1] / 2
         ang = rng.uniform(0, 2 * np.pi, n)
-        rr = np.where(rng.integers(0, 3, n) == 0, r0, np.abs(rng.normal(size=n)) * r0)
-        zz = np.where(rng.integers(0, 3, n) == 0, z0 * rng.choice([-1, 1], n), rng.normal(size=n) * z0)
+        rows["dimension"][: n // 3] = np.round(rows["dimension"][: n // 3] * 4) / 4 + 0.25  # sizes like (3, 3.5): z0/r0 not exactly representable
+        r0, z0 = rows["dimension"][:, 0] / 2, rows["dimension"][:, 1] / 2
+        ang = np.where(rng.integers(0, 2, n) == 0, 0.0, ang)
+        rr = np.where(rng.integers(0, 3, n) == 0, _ulp_jitter(rng, r0), np.abs(rng.normal(size=n)) * r0)
+        zz = np.where(rng.integers(0, 3, n) == 0, _ulp_jitter(rng, z0) * rng.choice([-1, 1], n), rng.normal(size=n) * z0)
         rows["observers"] = np.c_[rr * np.cos(ang), rr * np.sin(ang), zz]
     elif name == "Sphere":
         rows["diameter"] = np.abs(rows["diameter"]) + 0.1
+        rows["diameter"][: n // 3] = np.round(rows["diameter"][: n // 3] * 4) / 4 + 0.25
+        on = rng.integers(0, 3, n) == 0  # exactly on the surface (and one ulp off), along a coordinate axis so that r is exact
+        ax = rng.integers(0, 3, n)
+        surf = np.zeros((n, 3))
+        surf[np.arange(n), ax] = _ulp_jitter(rng, rows["diameter"] / 2) * rng.choice([-1, 1], n)
+        rows["observers"][on] = surf[on]
     elif name.startswith("CylinderSegment"):
         r1 = np.abs(rng.normal(size=n)) * (rng.integers(0, 3, n) > 0)
         r2 = r1 + np.abs(rng.normal(size=n)) + 0.1
